@@ -301,6 +301,37 @@ func runC19(c *Ctx) {
 				}
 			}
 			c.Check(bad == "", "C19.5-cleanup", FuncName(writeLoop)+"|error exits pass streamClose", p.Pos(writeLoop.Pos()), orDefault(bad, "every exit of writeLoop (other than queue closed) passes streamClose"))
+			// a failed write ends the stream: from the failing edge of MsgSend the loop does not
+			// take another message (and does not return) without streamClose — otherwise a stream
+			// whose writes fail while its reader stays blocked keeps its index entries and tags,
+			// and later sends keep targeting it
+			{
+				msgSend := calleeMethod("storj.io/drpc", "MsgSend")
+				g := GErrNil("stream.MsgSend()==nil", msgSend)
+				fail := g.FailEdges(writeLoop)
+				bad2 := ""
+				if len(fail) == 0 {
+					bad2 = "the error of stream.MsgSend is not tested in writeLoop"
+				}
+				var starts []*ssa.BasicBlock
+				for e := range fail {
+					starts = append(starts, e.From.Succs[e.Succ])
+				}
+				if len(starts) > 0 {
+					r2 := Reach(writeLoop, ReachOpts{Starts: starts, Cut: CutAtCall(CalleeFn(streamClose))})
+					for _, cs := range CallSinks(writeLoop, calleeMethod("cheggaaa/mb", "WaitOne"), false) {
+						if r2.Reachable(cs) {
+							bad2 = "after a failed MsgSend the write loop waits for the next message without streamClose: the broken stream stays indexed and keeps being targeted"
+						}
+					}
+					for _, ret := range Returns(writeLoop) {
+						if r2.Reachable(ret) {
+							bad2 = "after a failed MsgSend writeLoop returns without streamClose"
+						}
+					}
+				}
+				c.Check(bad2 == "", "C19.5-cleanup", FuncName(writeLoop)+"|failed write closes the stream", p.Pos(writeLoop.Pos()), orDefault(bad2, "the failing edge of MsgSend leads only to streamClose"))
+			}
 		}
 		// streamClose: after winning the swap every path reaches removeStream
 		{
